@@ -100,7 +100,9 @@ CapBracketed(cap, rad, cnt) ==
     /\ cnt.nin > 0 /\ cnt.nout <= 2 * cnt.nin
 
 (* ---- configuration lattice of the property's quantifier ------------------ *)
-CentreClasses == {"generic", "npole", "spole", "ra0", "ra360"}
+\* ra0 = (0.0, random dec); ra360 = (2 pi - eps, random dec); origin_int = the
+\* position ra = 0, dec = 0 written as integers (0, 0)
+CentreClasses == {"generic", "npole", "spole", "ra0", "ra360", "origin_int"}
 Depths        == 3..12
 \* nominal radius (circle) / circumradius (polygon) in micro-degrees
 RadiusClasses == {10000, 1000000, 20000000, 60000000}
